@@ -366,3 +366,17 @@ func inStrings(l []string, n int, s string) bool {
 //@ func (item FetchItemDataBinarySection) discard()
 //@   props C11:callsite
 //@   callsite io.Copy(dst io.Writer, src io.Reader) requires src != nil
+
+// Completing a command removes exactly that command from the pending list and
+// keeps the others in their order (untagged data goes to the first pending
+// command of a kind, so the order is part of the routing).
+//
+//@ func (c *Client) deletePendingCmdByTag(tag string) (result command)
+//@   props C12:post
+//@   requires c != nil
+//@   ensures result == nil ==> len(c.pendingCmds) == old(len(c.pendingCmds)) && (forall k int :: 0 <= k && k < len(c.pendingCmds) ==> c.pendingCmds[k] == old(c.pendingCmds[k]))
+//@   ensures result != nil ==> len(c.pendingCmds) == old(len(c.pendingCmds))-1
+//@   ensures result != nil ==> exists i int :: 0 <= i && i < old(len(c.pendingCmds)) && old(c.pendingCmds[i]) == result && (forall k int :: 0 <= k && k < i ==> c.pendingCmds[k] == old(c.pendingCmds[k])) && (forall k int :: i <= k && k < len(c.pendingCmds) ==> c.pendingCmds[k] == old(c.pendingCmds[k+1]))
+//@   loop 0 vars (i int)
+//@   loop 0 invariant -1 <= i && i < len(c.pendingCmds) && len(c.pendingCmds) == old(len(c.pendingCmds))
+//@   loop 0 invariant forall k int :: 0 <= k && k < len(c.pendingCmds) ==> c.pendingCmds[k] == old(c.pendingCmds[k])
